@@ -210,11 +210,11 @@ def _find_shebang(source):
     """
 
     if isinstance(source, bytes):
-        shebang = re.match(br'^#!.*', source)
+        shebang = re.match(br'^#![^\r\n]*(?:\r(?=\n))?', source)
         if shebang:
             return shebang.group().decode()
     else:
-        shebang = re.match(r'^#!.*', source)
+        shebang = re.match(r'^#![^\r\n]*(?:\r(?=\n))?', source)
         if shebang:
             return shebang.group()
 
